@@ -825,14 +825,15 @@ func c31Canon(st *c31State, nonce int) []c31Req {
 // ---- the monitor -----------------------------------------------------------
 
 type c31Witness struct {
-	Mode    string   `json:"mode"`
-	Segment int      `json:"segment"`
-	Index   int      `json:"index_in_segment"`
-	Req     c31Req   `json:"request"`
-	Status  int      `json:"status"`
-	Calls   []sCall  `json:"storage_calls"`
-	Auth    []aEvent `json:"authorizer_events"`
-	Detail  string   `json:"detail,omitempty"`
+	Mode    string        `json:"mode"`
+	Segment int           `json:"segment"`
+	Index   int           `json:"index_in_segment"`
+	Req     c31Req        `json:"request"`
+	Status  int           `json:"status"`
+	Calls   []sCall       `json:"storage_calls"`
+	Auth    []aEvent      `json:"authorizer_events"`
+	Detail  string        `json:"detail,omitempty"`
+	Paged   *pagedWitness `json:"paged_walk,omitempty"` // mode "paged-hooks": the client walk instead of a single request
 }
 
 func ptrEq(p *string, s string) bool { return p != nil && *p == s }
@@ -1004,10 +1005,10 @@ func (ck *c31Checker) check(rq c31Req, resp *respInfo, calls []sCall, auth []aEv
 				// where state may change (authorized copies move content between keys) only the
 				// existence of a Get allow is required here - check (1) ties the allow to the
 				// bucket/key actually read; where it cannot change the marker identifies the
-				// object, and the allow must name it (website hosts included; the only other
-				// content a website host may send is the configured error document with an error status)
+				// object, and the allow must name it (website hosts included: index and
+				// error documents are authorized under their own key)
 				exact := ck.mode.Frozen || ck.mode.Static
-				if !exact || (ptrEq(e.Bucket, bk[0]) && (ptrEq(e.Key, bk[1]) || (rq.Website && resp.Status >= 400 && ck.isErrorDocument(bk[0], bk[1])))) {
+				if !exact || (ptrEq(e.Bucket, bk[0]) && ptrEq(e.Key, bk[1])) {
 					allowed = true
 				}
 			}
@@ -1017,11 +1018,7 @@ func (ck *c31Checker) check(rq c31Req, resp *respInfo, calls []sCall, auth []aEv
 		}
 		// (2b) a program that denies every read of an object never sees its content leave
 		if ck.mode.DenyKey != nil && ck.mode.DenyKey(bk[0], bk[1]) {
-			if rq.Website && resp.Status >= 400 && ck.isErrorDocument(bk[0], bk[1]) {
-				r.Count("exempt:website-error-document-content", 1)
-			} else {
-				ck.fire("denied-object-bytes-returned:"+pat, fmt.Sprintf("response to %s (status %d) carries the content of %s/%s, a key the authorizer program %s denies for every read", pat, resp.Status, bk[0], bk[1], ck.mode.Name), w, m)
-			}
+			ck.fire("denied-object-bytes-returned:"+pat, fmt.Sprintf("response to %s (status %d) carries the content of %s/%s, a key the authorizer program %s denies for every read", pat, resp.Status, bk[0], bk[1], ck.mode.Name), w, m)
 		}
 	}
 	if ck.mode.DenyKey != nil {
@@ -1399,9 +1396,9 @@ func runC31(tier, replay string) {
 		loadWitness(replay, &rw)
 	}
 	r := vkit.Begin("C31", "exploration", tier)
-	r.SetRule("request = every method {GET,HEAD,PUT,POST,DELETE,OPTIONS,PATCH} x path shape {/, /b, /b/, /b/k, /b/k/sub/x, /b/k/sub//x, virtual-hosted root and key, website endpoint root and key, custom domain key and root; website/custom-domain paths include directory-style ones (/, /docs/, /private/, /blog/, missing directories, /dir without slash) against two buckets with website configuration (different index suffixes, with / without error document)} x every subset of <= 2 of 16 subresource queries (known and unknown) x PRNG header variant (copy-source incl. versionId / garbage / self, copy-source-range, tagging, tagging/metadata directive, storage class, conditionals, write offset, Origin/preflight, Range) x body (valid XML for the subresource / garbage; multi-delete bodies of 1..6 entries in which keys repeat and entries of versioned keys carry a VersionId); executed against a pre-seeded SQLite storage (3 buckets, versions, delete marker, tags, pending multipart uploads, website + CORS configuration) under seven authorizer programs: allow-all, deny-all, PRNG-keyed allow/deny on (operation,bucket,key) with keyed per-item hooks, real Lua 'return request:isReadOnly()', real Lua per-item hooks, real Lua tag predicate, real Lua key predicate (read-only, denies *.html/*.htm/k2). distinct = distinct (program, method+shape+query names, variant, status, number of storage calls)")
+	r.SetRule("request = every method {GET,HEAD,PUT,POST,DELETE,OPTIONS,PATCH} x path shape {/, /b, /b/, /b/k, /b/k/sub/x, /b/k/sub//x, virtual-hosted root and key, website endpoint root and key, custom domain key and root; website/custom-domain paths include directory-style ones (/, /docs/, /private/, /blog/, missing directories, /dir without slash) against two buckets with website configuration (different index suffixes, with / without error document)} x every subset of <= 2 of 16 subresource queries (known and unknown) x PRNG header variant (copy-source incl. versionId / garbage / self, copy-source-range, tagging, tagging/metadata directive, storage class, conditionals, write offset, Origin/preflight, Range) x body (valid XML for the subresource / garbage; multi-delete bodies of 1..6 entries in which keys repeat and entries of versioned keys carry a VersionId); executed against a pre-seeded SQLite storage (3 buckets, versions, delete marker, tags, pending multipart uploads, website + CORS configuration) under seven authorizer programs: allow-all, deny-all, PRNG-keyed allow/deny on (operation,bucket,key) with keyed per-item hooks, real Lua 'return request:isReadOnly()', real Lua per-item hooks, real Lua tag predicate, real Lua key predicate (read-only, denies *.html/*.htm/k2). distinct = distinct (program, method+shape+query names, variant, status, number of storage calls). Plus paged client walks under a real Lua program with per-item list hooks (hide keys ending in -h / even part numbers): ListObjects v1, ListObjectsV2, ListMultipartUploads and ListParts with page size 1..5, followed through NextMarker / NextContinuationToken / NextKeyMarker+NextUploadIdMarker / NextPartNumberMarker until IsTruncated=false, over windows (whole bucket, per-group prefix, prefix + delimiter that no key contains, optional initial marker / start-after) whose item order has runs of 1..7 consecutive hidden items at the start, in the middle and at the end, plus PRNG layouts with several runs; distinct = (API, page size, window layout, options, number of pages)")
 	r.Assume("covering table written from the S3 action model: version-specific calls need the *Version* operation; Head is covered by Head*/Get*; multipart writes by their own name or PutObject; config deletes by Delete*/Put*; copy needs the exact source bucket/key in the same allow")
-	r.Assume("enforced effects: every state-changing storage call, GetObject, HeadObject, GetObjectTagging. Exempt: CORS configuration lookup by the CORS middleware, lookups issued while the authorizer itself runs (lazy tag resolvers), website configuration lookup on website hosts. On website hosts the key that is read must equal the allowed key (so a directory-style path must be authorized as its index document) with two counted exemptions: the bucket's configured error document read to render a status >= 400 for a request allowed on that bucket, and the HeadObject(K/<index suffix>) existence probe after the allowed key K was not found (answer is a 302 to K/ or the error page, nothing of the probed object is sent). List/Head bucket/configuration reads are counted, not enforced (no object data, no state change)")
+	r.Assume("enforced effects: every state-changing storage call, GetObject, HeadObject, GetObjectTagging. Exempt: CORS configuration lookup by the CORS middleware, lookups issued while the authorizer itself runs (lazy tag resolvers), website configuration lookup on website hosts. On website hosts the key that is read must equal the allowed key (so a directory-style path must be authorized as its index document, and the error document under its own key) with one counted exemption: the HeadObject(K/<index suffix>) existence probe after the allowed key K was not found (answer is a 302 to K/ or the error page, nothing of the probed object is sent). List/Head bucket/configuration reads are counted, not enforced (no object data, no state change)")
 	rng := r.Rand()
 	plans := c31Plans(r, rng)
 	if replay != "" {
@@ -1409,6 +1406,9 @@ func runC31(tier, replay string) {
 			if p.Mode.Name == rw.Mode {
 				c31RunMode(r, rng, p, rw.Segment, rw.Index)
 			}
+		}
+		if rw.Mode == c31PagedMode && rw.Paged != nil {
+			c31RunPaged(r, rng, rw.Paged.Walk.Index)
 		}
 		if firedCount > 0 {
 			fmt.Println("replay: reproduced")
@@ -1420,12 +1420,16 @@ func runC31(tier, replay string) {
 	for _, p := range plans {
 		c31RunMode(r, rng, p, -1, -1)
 	}
+	c31RunPaged(r, rng, -1)
 	// the run is only meaningful if the monitors saw allows, denies, effects, object bytes and hidden items
 	need := []string{"effects_covered", "decisions_allow", "decisions_deny", "responses_carrying_object_bytes", "snapshots_equal", "multi_delete_calls_checked", "listings_checked:listObject", "list_items_hidden:listObject", "exempt:lookup-made-by-authorizer:GetObjectTagging", "requests_with_mutating_call",
 		// website hosts: index documents were read for directory-style paths and tied to the allowed key; a key-sensitive program ran
 		"website_document_reads_checked", "website_index_document_reads_checked", "denied_key_content_checks",
 		// multi-delete: batches repeating a key reached storage, and hook-denied keys that occur several times in one batch were compared before/after
-		"multi_delete_batches_with_repeated_key", "multi_delete_denied_keys_state_checked", "multi_delete_denied_keys_repeated_in_batch", "multi_delete_results_checked"}
+		"multi_delete_batches_with_repeated_key", "multi_delete_denied_keys_state_checked", "multi_delete_denied_keys_repeated_in_batch", "multi_delete_results_checked",
+		// paged listings under a per-item hook: every API was walked to the end, hidden runs at least as long as the page were followed by visible items
+		"paged_walks:ListObjects-v1", "paged_walks:ListObjects-v2", "paged_walks:ListMultipartUploads", "paged_walks:ListParts", "paged_walks_exact",
+		"paged_hidden_run_ge_page_size_followed_by_visible", "paged_hidden_runs:pos=start", "paged_hidden_runs:pos=middle", "paged_hidden_runs:pos=end", "paged_hook_decisions"}
 	for _, n := range need {
 		if r.Counter(n) == 0 {
 			r.Inconclusive("monitor never observed: " + n)
